@@ -74,11 +74,21 @@ class Result(object):
                     break
             (listed if hit else unlisted).append((v, hit))
 
-        outdir = os.path.join(VERIF, 'out', self.pid)
+        # replay files: /verif/out/<id>/ for a run on /repo; runs of the checker's own self-test (scratch tree given with --repo, or MSA_OUT_SUFFIX set) write
+        # theirs elsewhere so that they neither race with each other nor remove the replay files of the real run
+        if os.environ.get('MSA_REPO'):
+            outdir = os.path.join(os.environ['MSA_REPO'], '.msa-out', self.pid)
+        elif os.environ.get('MSA_OUT_SUFFIX'):
+            outdir = os.path.join(VERIF, 'out', '%s.%s' % (self.pid, os.environ['MSA_OUT_SUFFIX']))
+        else:
+            outdir = os.path.join(VERIF, 'out', self.pid)
         os.makedirs(outdir, exist_ok=True)
         for f in os.listdir(outdir):
             if f.startswith('v') and f.endswith('.json'):
-                os.unlink(os.path.join(outdir, f))
+                try:
+                    os.unlink(os.path.join(outdir, f))
+                except OSError:
+                    pass
         lines = []
         for (v, k) in listed:
             lines.append('KNOWN-FINDING: property=%s %s [%s at %s]' % (self.pid, k.get('what', v['message']), v['rule'], v['where']))
